@@ -246,6 +246,22 @@ def stil_case(res, case):
                                 res.violation(key + '/loc-po', case, f'tests_loc() assigns output {n}')
                     res.count('loc_cases')
             check_loc(np.asarray(s.tests_loc(c)), None, key)
+            base_loc = np.asarray(s.tests_loc(c))
+            ident = lambda a: np.array(a, copy=True)
+            if not np.array_equal(np.asarray(s.tests_loc(c, init_filter=ident, launch_filter=ident)), base_loc):
+                res.violation(key + '/loc-identity-filters', case, 'tests_loc with filters that return unchanged copies differs from tests_loc without filters')
+            # a launch_filter that forces every flip-flop of the launch state to 0: the final half of every flip-flop value is 0
+            ffrows = [i for i, n in enumerate(c.s_nodes) if any(n.name in ch for ch in d.chains)]
+            def lzero(a):
+                out = np.array(a, copy=True); out[ffrows] = Z
+                return out
+            gl = np.asarray(s.tests_loc(c, launch_filter=lzero))
+            for i in range(len(patterns)):
+                for r in ffrows:
+                    ld = int(exp_t[r, i])
+                    if ld in (Z, O) and int(gl[r, i]) != {Z: 0, O: 6}[ld]:
+                        res.violation(key + '/loc-launch-filter', case, f'tests_loc(launch_filter=all flip-flops 0)[{c.s_nodes[r].name}, pattern {i}] = {ref.CHARS[int(gl[r, i])]}, loaded {ref.CHARS[ld]}\n{text}')
+            res.count('loc_launch_filter_cases')
             if any('N' in x for p in patterns for x in p['load']):
                 # the documented init_filter hook: filling the don't-care positions before simulation is the same as loading the filled state
                 for fill in (Z, O):
